@@ -55,6 +55,7 @@ func baseConfig() mqtt.Config {
 
 // H bundles a world with the helpers the state machines share.
 type H struct {
+	slowDrain bool // drain over a link whose write deadlines keep expiring after progress
 	*sim.World
 	rt     *rapid.T
 	prop   string
@@ -356,6 +357,24 @@ func (h *H) drain(done func() bool) {
 		if c.Blackholed() {
 			c.Break(false)
 		}
+	}
+	if h.slowDrain {
+		// A link which is slow yet steady: write deadlines keep expiring, each
+		// time after progress. That is no loss of the connection; everything
+		// must go out all the same, however many packets the backlog has.
+		arm := func(c *sim.Conn, from int) {
+			for k := 0; k < 400; k++ {
+				c.ArmWriteLocked(sim.WFault{Off: from + 1 + 19*k, Kind: sim.WTimeoutProgress})
+			}
+		}
+		h.Act("the link is slow yet steady from here on: write deadlines expire after progress every 19 bytes")
+		h.WithLock(func() {
+			h.NextConnOpts = func(c *sim.Conn) { arm(c, connectLen) }
+			if c := h.CurrentLocked(); c != nil {
+				arm(c, len(c.Out))
+			}
+		})
+		h.label("drain-over-slow-steady-link")
 	}
 	if c := h.Current(); c != nil {
 		h.WithLock(func() { h.FlushOwedLocked(c) })
